@@ -13,7 +13,7 @@
 From SF Require Import Base.Prelude Gen.Generated Unsized.Types Unsized.Parse Unsized.Machine Unsized.Ops.
 From SF Require Import Unsized.Proofs.EncodeParse Unsized.Proofs.Mem Unsized.Proofs.Notify Unsized.Proofs.Flat.
 From SF Require Import Unsized.Proofs.Layout Unsized.Proofs.Path Unsized.Proofs.Resize Unsized.Proofs.History Unsized.Proofs.History2.
-From SF Require Import Unsized.Proofs.History3 Unsized.Proofs.Enums Unsized.Proofs.InitKinds Unsized.Proofs.StringSet.
+From SF Require Import Unsized.Proofs.History3 Unsized.Proofs.Enums Unsized.Proofs.InitKinds Unsized.Proofs.StringSet Unsized.Proofs.SwapOps.
 
 (* the full operation set: no Fault, no Panic, pointer assertions hold *)
 Theorem C03_all_ops_no_fault_in_any_history :
@@ -106,6 +106,23 @@ Proof. exact check_ptrs_in_range. Qed.
 Theorem C03_swapped_accessor_detected :
   forall p lo hi cursor a, lo <= hi -> In a (addrs p) -> (a < lo \/ hi < a) -> fst (check_ptrs p lo hi cursor) = false.
 Proof. exact foreign_pointer_detected. Qed.
+
+(* ... and the first resizing operation on a list of unsized elements whose remembered element accessor belongs to another
+   buffer reports it (panics) before a byte moves: insert, remove_range and clear alike *)
+Theorem C03_swapped_element_accessor_reported_by_the_next_operation :
+  forall t s top ps it k a n q rs re x,
+    sub t top ps = Ok (TUList it k, PUList a n (Some q) true rs re) ->
+    rs <= re -> In x (addrs q) -> (x < rs \/ re < x) ->
+    (forall idx kind keys, ulist_insert t s top ps idx kind keys = Panic) /\
+    (forall st en, ulist_remove t s top ps st en = Panic) /\
+    ulist_clear t s top ps = Panic.
+Proof.
+  intros t s top ps it k a n q rs re x Hsub Hr Hin Hout.
+  pose proof (foreign_inner_not_ok a n q rs re x Hr Hin Hout) as Hbad.
+  split; [intros; exact (ulist_insert_reports_foreign t s top ps it k _ Hsub Hbad idx kind keys)|].
+  split; [intros; exact (ulist_remove_reports_foreign t s top ps it k _ Hsub Hbad st en)|].
+  exact (ulist_clear_reports_foreign t s top ps it k _ Hsub Hbad).
+Qed.
 
 Example C03_nonvacuous :
   (* a struct pointer of buffer [0,100) in which the second field was swapped with one of buffer [1000,1100) *)
